@@ -358,17 +358,20 @@ def cases(rng, tier):
     for name, (text, _cls) in sorted(NEXUS_SITE_WITNESS.items()):
         out.append({"reader": "nexus", "text": text, "kind": "site-witness:" + name})
     out.extend(deep_probes(tier))
-    # --- strings over the token alphabets
-    for t in exhaustive(NEWICK_ALPHABET, 3 if quick else 5):
-        out.append({"reader": "newick", "text": t, "kind": "alphabet-exhaustive"})
-    for t in exhaustive(PHYLIP_ALPHABET, 2 if quick else 4):
-        out.append({"reader": "phylip", "text": t, "kind": "alphabet-exhaustive"})
-    for t in exhaustive(FASTA_ALPHABET, 2 if quick else 4):
-        out.append({"reader": "fasta", "text": t, "kind": "alphabet-exhaustive"})
-    for t in exhaustive(["#NEXUS", "BEGIN", "END", ";", "TAXA", "TREES", "LINK", "TREE", "=", "(A,B)", "x", "CHARACTERS"],
-                        2 if quick else 4, " "):
-        out.append({"reader": "nexus", "text": t, "kind": "alphabet-exhaustive"})
-    nrand = 150 if quick else 3000
+    # --- strings over the token alphabets: exhaustive short ones (all go through the oracle; in the
+    # thorough tier only a sample of them is also evaluated by the Coq model)
+    def exh(reader, alphabet, maxlen, joiner=""):
+        for t in exhaustive(alphabet, maxlen, joiner):
+            c = {"reader": reader, "text": t, "kind": "alphabet-exhaustive"}
+            if not quick and len(t) > (3 if not joiner else 20) and rng.random() > 0.02:
+                c["model"] = False
+            out.append(c)
+    exh("newick", NEWICK_ALPHABET, 3 if quick else 5)
+    exh("phylip", PHYLIP_ALPHABET, 2 if quick else 4)
+    exh("fasta", FASTA_ALPHABET, 2 if quick else 4)
+    exh("nexus", ["#NEXUS", "BEGIN", "END", ";", "TAXA", "TREES", "LINK", "TREE", "=", "(A,B)", "x", "CHARACTERS"],
+        2 if quick else 4, " ")
+    nrand = 150 if quick else 1500
     for _ in range(nrand):
         out.append({"reader": "newick", "text": random_string(rng, NEWICK_ALPHABET, 40), "kind": "alphabet-random"})
         out.append({"reader": "phylip", "text": "2 3\n" * (rng.random() < 0.7) + random_string(rng, PHYLIP_ALPHABET, 40), "kind": "alphabet-random"})
